@@ -29,6 +29,8 @@ def run(ctx):
     ctx.guarded('R08d', 'error mapping', lambda: r08d(ctx))
     ctx.guarded('R08e', 'allocation taint', lambda: r08e(ctx))
     ctx.guarded('R08g', V1 + 'deserialize', lambda: r08g(ctx))
+    ctx.rule('R08h', 'a chunk decodes (sync and async decoder) only where the number of bytes decoded equals the uncompressed length declared in its header: every Ok of deserialize_chunk_to_writer is dominated by that equality (= C07-R07c "length check")')
+    ctx.guarded('R08h', 'chunk decoders', lambda: r08h(ctx))
 
 
 def eq_edges(a, pl, pr):
@@ -349,3 +351,16 @@ def r08g(ctx):
             if f and c05.loop_of(a, p) is not None:
                 fields[f[0][2]] = p
         ctx.check(set(fields) == {'chunk_hashes', 'chunk_boundary_offsets', 'unpacked_chunk_offsets'}, 'R08g', nm, 'lists', '-', 'the three lists are each filled inside a counted loop')
+
+
+def r08h(ctx):
+    """C08d: a fast path that returns before the decoded-length check makes the seekable validator accept an object
+    whose chunk header was modified."""
+    from . import rules_c07 as c07
+    F = ctx.F
+    for nm in (c07.CF + 'deserialize_chunk_to_writer', c07.CF + 'deserialize_async::deserialize_chunk_to_writer::{closure#0}'):
+        a = an(F.body(nm))
+        st = c07.steps(a, F)
+        ctx.check(bool(st.get('header')) and bool(st.get('decompress')), 'R08h', nm, 'steps', '-', 'the decoder reads one (validated) header and decompresses with the scheme it names')
+        ctx.check(bool(st.get('length check')), 'R08h', nm, 'length check', '-', 'every Ok is dominated by decoded length == header.get_uncompressed_length()',
+                  'a chunk can be decoded successfully although the number of bytes decoded was not compared with the length declared in its header: a validator then accepts an object whose chunk header was modified (and its two validators can disagree)')
